@@ -77,6 +77,12 @@ const STATEMENTS: &[(&str, &[&str])] = &[
     ("for x in [7]~ { }", &[]),
     ("{ (x, y) := (7, 1) }", &[]),
     ("y := [7]~ @ (x: int) -> int { return x } $]", &["y"]),
+    // a computed bool of an earlier input next to an operand with an effect: the later input sees a
+    // constant where the batch sees a name (the effect happens on both routes)
+    ("b := std.len([0]) > 5", &["b"]),
+    ("y := (c += 1) > 0 && b", &["y"]),
+    ("y := (c += 1) > 0 || !b", &["y"]),
+    ("y := if (c += 1) > 0 && b { 1 } else { 2 }", &["y"]),
 ];
 
 fn dump_vars(interp: &Interpreter, names: &BTreeSet<String>) -> String {
